@@ -26,10 +26,13 @@ type TripCall struct {
 	Parts    [][]byte // data: the Write calls
 	Callback bool     // lmtpdata: with status callback
 	Closes   int      // data: number of Close calls (1 or 2)
+	Pauses   []int    // data: the caller sleeps Pauses[i] ms before its i-th Write, Pauses[len(Parts)] ms before the first Close
 }
 
 type TripCase struct {
 	Cfg    Cfg
+	CmdTmo time.Duration // Client.CommandTimeout (0: 6 s)
+	Concur bool          // other trips run at the same time (gentripw.go)
 	Script Script
 	LMTP   bool
 	Calls  []TripCall
@@ -130,6 +133,9 @@ func RunTrip(c TripCase) *Sx {
 	}
 	cl.CommandTimeout = 6 * time.Second
 	cl.SubmissionTimeout = 6 * time.Second
+	if c.CmdTmo != 0 {
+		cl.CommandTimeout = c.CmdTmo
+	}
 
 	results := L()
 	calls := L()
@@ -158,7 +164,7 @@ func RunTrip(c TripCase) *Sx {
 			for _, p := range k.Parts {
 				ps.Add(X(p))
 			}
-			calls.Add(L(A(k.Kind), ps, B(k.Callback), Num(int64(k.Closes))))
+			calls.Add(pausesSx(k.Pauses, L(A(k.Kind), ps, B(k.Callback), Num(int64(k.Closes)))))
 			var w io.WriteCloser
 			if k.Kind == "lmtpdata" {
 				var cb func(string, *smtp.SMTPError)
@@ -177,7 +183,8 @@ func RunTrip(c TripCase) *Sx {
 			}
 			r := L(resSx(err))
 			if err == nil {
-				for _, p := range k.Parts {
+				for i, p := range k.Parts {
+					tripPause(k.Pauses, i)
 					if _, werr := w.Write(p); werr != nil {
 						r.Add(L(A("write-error"), XS(werr.Error())))
 						break
@@ -187,6 +194,7 @@ func RunTrip(c TripCase) *Sx {
 				before := len(srv.in)
 				srv.mu.Unlock()
 				_ = before
+				tripPause(k.Pauses, len(k.Parts))
 				for i := 0; i < k.Closes; i++ {
 					cerr := w.Close()
 					r.Add(resSx(cerr))
@@ -222,7 +230,11 @@ func RunTrip(c TripCase) *Sx {
 	<-ctxDone
 	s.Close()
 	time.Sleep(0)
-	be.Wait()
+	if c.Concur {
+		waitDeliveries(be) // be.Wait() looks at the goroutines of the whole process
+	} else {
+		be.Wait()
+	}
 
 	be.mu.Lock()
 	evs := L()
